@@ -105,6 +105,28 @@ func checkProgram(r *engine.R, p program, abort bool) {
 			r.Count("programs_not_run_because_of_a_static_stack_finding", 1)
 			return
 		}
+		for _, f := range fr.findings {
+			if !strings.HasPrefix(f.sig, "decode: ") && !strings.HasPrefix(f.sig, "disassembler: ") {
+				// e.g. an upvalue index out of range: the run would only show the Go panic the finding predicts (and
+				// on a pool thread such a panic kills the process)
+				r.Count("programs_not_run_because_of_a_static_structural_finding", 1)
+				return
+			}
+		}
+		// The VM does not unwind the operand stack when an error is caught (this check's finding "catch handler
+		// entered with leftover operands"). When the do..catch is itself an operand of an enclosing expression the
+		// leftovers shift that expression's operands and the VM reads wrong slots (observed: nil dereference in
+		// opNewArrayList, SIGSEGV in opNewHashMap). Such programs are verified statically only; do..catch in
+		// statement position still runs and shows the defect without corrupting anything.
+		for _, ce := range fr.fn.CatchEntries {
+			if ce.Finally || ce.From >= ce.To {
+				continue
+			}
+			if ds := fr.depths[ce.From]; len(ds) > 0 && ds[0] > fr.nlocals {
+				r.Count("programs_not_run_because_a_catch_sits_inside_an_expression_with_pending_operands", 1)
+				return
+			}
+		}
 	}
 	conform(r, p, mode, fn, reports)
 }
@@ -138,6 +160,9 @@ func account(r *engine.R, p program, mode string, fr *funcReport) {
 		r.Count("functions_not_depth_analysed", 1)
 		for _, op := range fr.notAn {
 			r.Count("not_depth_analysed_op:"+op, 1)
+			if os.Getenv("C29_SHOW_REJECTED") != "" {
+				fmt.Fprintf(os.Stderr, "NOTANALYSED %s %s %s\n", p.id, fr.name, op)
+			}
 		}
 		if fr.capped {
 			r.Count("functions_state_cap_hit", 1)
